@@ -234,8 +234,8 @@ func (g *Global) modSetOfCall(caller *ssa.Function, cc *ssa.CallCommon) *ModSet 
 		return ms
 	}
 	if cc.IsInvoke() {
-		key := ifaceMethodKey(cc.Value.Type(), cc.Method)
-		if con := g.cs.Funcs[key]; con != nil && con.HasMod {
+		key, con := g.ifaceContract(cc.Value.Type(), cc.Method)
+		if con != nil && con.HasMod {
 			if con.ModAll {
 				ms.all = true
 				ms.why = "interface contract modifies *"
